@@ -1,5 +1,5 @@
 CONSTANTS
-  CommitOrder = "publish_first"
+  CommitOrder = "storage_first"
   NanoMax = 1000000000
 INIT Init
 NEXT Next
